@@ -145,6 +145,11 @@ func (d *ppDriver) message(short, thread string, n int, outbound bool) service.D
 		m["@id"] = id
 		if !outbound {
 			m["~thread"] = map[string]interface{}{"thid": thread}
+			if thread == "t2" && short != "pr" {
+				// the thread is nested under a parent thread (an out-of-band invitation, an introduction): its messages name
+				// the parent next to their own thread; the protocol instance is still the thread
+				m["~thread"] = map[string]interface{}{"thid": thread, "pthid": "parent-of-" + thread}
+			}
 		}
 		if short == "reqc" {
 			m["will_confirm"] = true
